@@ -899,3 +899,41 @@ func specObjsOK(a []Object) bool {
 }
 
 func specCallOK(c Call) bool { return specObjsOK(c.args) && specObjsOK(c.vargs) }
+
+// ---------------------------------------------------------------------------
+// Modules (C12)
+
+// msInv: module indexes handed out by a module store are below its count and
+// distinct for distinct module names.
+func msInv(ms *moduleStore) bool {
+	return ms != nil && 0 <= ms.count &&
+		verifrt.Forall(func(n string) bool {
+			it, ok := ms.store[n]
+			return !ok || (0 <= it.moduleIndex && it.moduleIndex < ms.count)
+		}) &&
+		verifrt.Forall2(func(a, b string) bool {
+			ia, oka := ms.store[a]
+			ib, okb := ms.store[b]
+			return !oka || !okb || a == b || ia.moduleIndex != ib.moduleIndex
+		})
+}
+
+func specHasModule(ms *moduleStore, n string) bool {
+	_, ok := ms.store[n]
+	return ok
+}
+
+// specIsFreshMap: v is a Map that is not the map attrs.
+func specIsFreshMap(v any, attrs map[string]Object) bool {
+	m, ok := v.(Map)
+	return ok && m != nil && !verifrt.SameRef(map[string]Object(m), attrs)
+}
+
+func specMapHas(v any, key string, val Object) bool {
+	m, ok := v.(Map)
+	if !ok {
+		return false
+	}
+	x, ok := m[key]
+	return ok && x == val
+}
